@@ -120,15 +120,18 @@ def run(tier, seed):
     # all and whether one exists under the code's own product bound k*max f (narrow matching of KF-C08-product-bound)
     probe = []
     for r in recs:
-        if r.get("expect_solved") and not r["solved"] and r["cls"].endswith("Cycles") and r["wt"] == "int" \
+        if r.get("expect_solved") and not r["solved"] and r["cls"].endswith("Cycles") \
+                and (r["wt"] == "int" or (r["num"], r["den"]) == (1, 1)) \
                 and r["ctor_exc"] == "none" and not r.get("timeout") and not r["sws"]:
             vals = [x for x in (r["nw"] if r["mode"] == "node" else r["ew"]) if x != vlib.NONE]
             maxf = max(vals) if vals else 0
             k = r["k"] if r["k"] != vlib.NONE else r["k_model"]
             for j, (cap, caps) in enumerate(((-1, []), (k * maxf, []), (-1, r.get("repcaps_obs") or []))):
-                if j == 2 and (not caps or r["mode"] != "edge"):
+                if j == 2 and not caps:
                     continue
                 a = dict(r)
+                a["wt"] = "int"      # whether ANY solution exists is a question about covering walks (weight 0 + slack is always
+                                     # admissible), so the integer adversary answers it for float weights on unscaled data too
                 a.update({"id": r["id"] * 10 + j, "want": "any", "k": k, "tol": 0, "obj": 0, "_variant": j,
                           "acccap": 2 * k * maxf + 2, "maxslack": k * maxf, "prodcap": cap, "repcaps": caps, "_src": r["id"]})
                 probe.append(a)
@@ -175,15 +178,18 @@ def replay(path, seed):
     # all and whether one exists under the code's own product bound k*max f (narrow matching of KF-C08-product-bound)
     probe = []
     for r in recs:
-        if r.get("expect_solved") and not r["solved"] and r["cls"].endswith("Cycles") and r["wt"] == "int" \
+        if r.get("expect_solved") and not r["solved"] and r["cls"].endswith("Cycles") \
+                and (r["wt"] == "int" or (r["num"], r["den"]) == (1, 1)) \
                 and r["ctor_exc"] == "none" and not r.get("timeout") and not r["sws"]:
             vals = [x for x in (r["nw"] if r["mode"] == "node" else r["ew"]) if x != vlib.NONE]
             maxf = max(vals) if vals else 0
             k = r["k"] if r["k"] != vlib.NONE else r["k_model"]
             for j, (cap, caps) in enumerate(((-1, []), (k * maxf, []), (-1, r.get("repcaps_obs") or []))):
-                if j == 2 and (not caps or r["mode"] != "edge"):
+                if j == 2 and not caps:
                     continue
                 a = dict(r)
+                a["wt"] = "int"      # whether ANY solution exists is a question about covering walks (weight 0 + slack is always
+                                     # admissible), so the integer adversary answers it for float weights on unscaled data too
                 a.update({"id": r["id"] * 10 + j, "want": "any", "k": k, "tol": 0, "obj": 0, "_variant": j,
                           "acccap": 2 * k * maxf + 2, "maxslack": k * maxf, "prodcap": cap, "repcaps": caps, "_src": r["id"]})
                 probe.append(a)
